@@ -1297,6 +1297,22 @@ class Normaliser:
                             changed = True
                             self.report.if_assign += 1
                             continue
+                # if c: x = e      (x bound before: a parameter)   ->   x = e if c else x
+                if isinstance(st, ast.If) and not st.orelse and len(st.body) == 1 and stmts is fn.body:
+                    b0 = simple_target(st.body[0])
+                    if b0 and b0[0] in params and isinstance(st.body[0], ast.Assign) and \
+                            not any(isinstance(n, (ast.Yield, ast.YieldFrom, ast.Await, ast.NamedExpr)) for n in ast.walk(st)):
+                        new = ast.Assign(targets=[ast.Name(id=b0[0], ctx=ast.Store())],
+                                         value=ast.IfExp(test=st.test, body=b0[1],
+                                                         orelse=ast.Name(id=b0[0], ctx=ast.Load())),
+                                         lineno=0, col_offset=0)
+                        _set_only_missing(new, st)
+                        ast.fix_missing_locations(new)
+                        stmts[i] = new
+                        changed = True
+                        self.report.if_assign += 1
+                        i += 1
+                        continue
                 # if c: x = e else: x = d
                 if isinstance(st, ast.If) and len(st.body) == 1 and len(st.orelse) == 1:
                     b1, b2 = simple_target(st.body[0]), simple_target(st.orelse[0])
@@ -1654,6 +1670,16 @@ class Normaliser:
                         changed = True
                         rep.shapes += 1
                         return _set_loc(gen, node)
+                if fname == "starmap" and qual_ok and plain and len(node.args) == 2 and \
+                        Normaliser._atomic(node.args[0]) and "x_" not in _free_names(node.args[1]):
+                    gen = ast.GeneratorExp(
+                        elt=ast.Call(func=node.args[0], args=[ast.Starred(value=ast.Name(id="x_", ctx=ast.Load()),
+                                                                          ctx=ast.Load())], keywords=[]),
+                        generators=[ast.comprehension(target=ast.Name(id="x_", ctx=ast.Store()), iter=node.args[1],
+                                                      ifs=[], is_async=0)])
+                    changed = True
+                    rep.shapes += 1
+                    return _set_loc(gen, node)
                 if isinstance(f, ast.Name) and f.id == "filter" and plain and len(node.args) == 2 and \
                         "x_" not in _free_names(node.args[1]):
                     fn_ = node.args[0]
@@ -1895,16 +1921,33 @@ class Normaliser:
         if pur == 0:
             pass
         elif pur == 1:
-            # what val reads must not be able to change between the definition and any use
-            for j in range(i + 1, last + 1):
-                st = stmts[j]
-                if j == last:
-                    hid = header_ids(st)
-                    if all(id(n) in hid for jj, n in after if jj == j):
-                        if not all(_quiet_before(h, tgt) for h in _headers(st)):
-                            return False
-                        continue
-                if not _quiet(st):
+            # what val reads must not be able to change between the definition and any use:
+            # everything executed on the way to a use is quiet, and in the using statement nothing
+            # with an effect is evaluated before the use (an assignment stores after its value)
+            def reach_ok(block: List[ast.stmt], upto: int, use: ast.Name) -> bool:
+                for k in range(0, upto):
+                    if not _quiet(block[k]):
+                        return False
+                st_ = block[upto]
+                if isinstance(st_, ast.If):
+                    if _contains(st_.test, use):
+                        return _quiet_before(st_.test, tgt)
+                    if not _quiet(st_.test):
+                        return False
+                    for branch in (st_.body, st_.orelse):
+                        for k2, s2 in enumerate(branch):
+                            if _contains(s2, use):
+                                return reach_ok(branch, k2, use)
+                    return False
+                if isinstance(st_, (ast.For, ast.While, ast.With, ast.Try)):
+                    hs = _headers(st_)
+                    if hs and all(_contains(h, use) or not _contains(st_, use) for h in hs) and any(_contains(h, use) for h in hs):
+                        return all(_quiet_before(h, tgt) for h in hs)
+                    return _quiet(st_)
+                return _quiet_before(st_, tgt)
+            rest = stmts[i + 1:]
+            for jj, n in after:
+                if not reach_ok(rest, jj - (i + 1), n):
                     return False
         else:
             # val calls something: one use, evaluated exactly once, nothing in between that
@@ -2135,17 +2178,20 @@ class Normaliser:
                     tree.body.remove(st)
                 self.report.constants += 1
 
-    # ------------------------------------------------------------------ driver
-    def run(self) -> Report:
-        self.init_only = self._init_only_attrs()
-        for tree in self.trees.values():
-            for c in [n for n in ast.walk(tree) if isinstance(n, ast.ClassDef)]:
-                for st in c.body:
-                    if isinstance(st, ast.FunctionDef) and "staticmethod" not in _decorators(st):
-                        st._is_method = True  # type: ignore[attr-defined]
-        self.module_constants()
-        self.parameter_names()
-        self.inline_helpers()
+    def _qualify_all(self) -> None:
+        for mod, tree in self.trees.items():
+            def visit(stmts: List[ast.stmt], cls: Optional[str]) -> None:
+                for st in stmts:
+                    if isinstance(st, ast.ClassDef):
+                        visit(st.body, (cls + "." if cls else "") + st.name)
+                    elif isinstance(st, ast.FunctionDef):
+                        self._qualify(st, (cls + "." if cls else "") + st.name, mod)
+                    elif isinstance(st, ast.If):
+                        visit(st.body, cls)
+                        visit(st.orelse, cls)
+            visit(tree.body, None)
+
+    def _local_passes(self) -> None:
         for tree in self.trees.values():
             for fn in [n for n in ast.walk(tree) if isinstance(n, ast.FunctionDef)]:
                 for _ in range(8):
@@ -2156,6 +2202,23 @@ class Normaliser:
                     d = self.shapes(fn)
                     if not (a or b or c or d or v):
                         break
+
+    # ------------------------------------------------------------------ driver
+    def run(self) -> Report:
+        self.init_only = self._init_only_attrs()
+        for tree in self.trees.values():
+            for c in [n for n in ast.walk(tree) if isinstance(n, ast.ClassDef)]:
+                for st in c.body:
+                    if isinstance(st, ast.FunctionDef) and "staticmethod" not in _decorators(st):
+                        st._is_method = True  # type: ignore[attr-defined]
+        self.module_constants()
+        self.parameter_names()
+        # helpers are brought into normal form before they are inlined (merged guards, no
+        # temporaries), their callers afterwards
+        self._qualify_all()
+        self._local_passes()
+        self.inline_helpers()
+        self._local_passes()
         self.call_style()
         for tree in self.trees.values():
             ast.fix_missing_locations(tree)
